@@ -1,4 +1,4 @@
-\* simulation, GENERATION ONLY (behaviours for the replay): 4 producers, producer 3 Byzantine (equivocates; some of its blocks fail in execute()), 3 correct nodes, up to 16 blocks, runs of blocks children first, no restart.  The safety properties are not checked here: with blocks that fail, ProposalsOnMain and then LibOnMain do not hold in the code as it is (finding F6, MC_DposLib_stale2.cfg); they are checked for the design with the proposed repairs in Sim_DposLib4i_intended.cfg
+\* simulation: 4 producers, producer 3 Byzantine (equivocates; some of its blocks fail in execute()), 3 correct nodes, up to 16 blocks, runs of blocks children first, 2 restarts.  All properties except LibOnMain / AfterAbandonedReorgStatusMatchesMainChain: the valid prefix of a branch can legitimately make one of its blocks irreversible before a later block fails and the node stays on its old chain (finality side of known finding C07-valid-prefix-not-adopted, see MC_DposLib_prefix.cfg)
 SPECIFICATION Spec
 CONSTANTS
   N = 4
@@ -6,11 +6,12 @@ CONSTANTS
   Nodes <- Nodes012
   Blk0s <- NoBlocks
   MaxBlocks = 16
-  MaxRestarts = 0
+  MaxRestarts = 2
   ByzMode = "branch"
   ByzRanges <- R123
   Runs = TRUE
   BadKinds <- OkExec
   Fixes <- AllFixes
-INVARIANTS TypeOK HonestConfirms
+INVARIANTS TypeOK ConfirmsOnMain ProposalsOnMain StatusBestIsBest Agreement HonestConfirms
+PROPERTIES LibMonotone Final NoForkBelowLib LibQuorum RestoreEqualsRecompute
 CHECK_DEADLOCK FALSE
